@@ -1358,3 +1358,23 @@ mut("c03-header-continue-without-consuming", "C03", "src/parser/request.rs",
                 let skip_head = if head.content_length == 0 && head.padding_length == 0xff { 0 } else { fcgi::RecordHeader::LEN };
                 return Continue((&mut data[skip_head..], Self::wrap_values(vals)));""",
     "R3.13/HeaderState::drive/", "a GetValues header with a particular length combination is not consumed")
+
+mut("c03-skip-breaks-after-complete-record", "C03", "src/parser/request.rs",
+    """            Continue((&mut data[total..], self.next.into_state()))
+        }
+    }
+}""",
+    """            if total == 0 {
+                return Continue((data, self.next.into_state()));
+            }
+            Break((&mut data[total..], self.next.into_state()))
+        }
+    }
+}""",
+    "R3.13/SkipState::drive/stops-only-when-incomplete", "a completely skipped record ends the parse call: the outcome depends on the chunking")
+mut("c11-abort-breaks-drive", "C11", "src/parser/request.rs",
+    """                let initial = HeaderState.into_skip(head.content_length, head.padding_length);
+                Continue((data, initial))""",
+    """                let initial = HeaderState.into_skip(head.content_length, head.padding_length);
+                Break((data, initial))""",
+    "abort", "after an abort during Params the rest of the chunk is left unparsed (seed C11-d)")
